@@ -378,6 +378,14 @@ def rule_e(ctx):
     ctx.floor("C19-E", "merge_computed_style call sites", n, 1 if (not ctx.has_css) else 4)
     # maybe_update callers pass `important` through unchanged
     mu = F.one("WithSpec::<T>::maybe_update")
+    # who may enter a declaration into an element's cascade: the merge of a matched / inline declaration, and the agent
+    # default for <pre> in the DOM walk — nothing else (a value handed on from another element with that element's
+    # importance, origin and specificity would compete with the element's own declarations)
+    MU_OK = {"css::StyleData::merge_computed_style": "the cascade itself", "process_dom_node": "agent default white-space of <pre> (origin Agent, default specificity)"}
+    for (b, bb, t) in F.call_sites(lambda cd, t: cd == mu.id):
+        root = b.root if b.kind == "Closure" else b.id
+        ctx.check(root in MU_OK, "C19-E", "maybe_update:caller@%s" % fn_key(b), t["span"], b.id,
+                  "WithSpec::maybe_update is called outside the cascade: %s enters a value into another element's cascade" % fn_key(b))
     for (b, bb, t) in F.call_sites(lambda cd, t: cd == mu.id):
         if b.id != ms.id:
             continue
